@@ -222,6 +222,7 @@ fn stale_for(kind: &str) -> Vec<String> {
         "ENV" => vec!["".into(), "OLD=\"1\"".into()],
         "RELREF" | "OREL" | "RELV" => vec!["old-dep (>= 1),".into(), "other-old".into()],
         "LICENSE" => vec!["Old-License".into()],
+        "LONGDESC" => vec!["old first line".into(), "old long text".into(), "more old text".into()],
         _ => vec!["old value".into()],
     }
 }
@@ -572,6 +573,7 @@ fn gen_val(t: &mut Tape, kind: &str) -> Val {
     match kind {
         "S" => Val::Str(Some(gen_line(t))),
         "OS" => Val::Str(if t.chance(1, 4) { None } else { Some(gen_line(t)) }),
+        "LONGDESC" => Val::Str(Some(if t.flag() { gen_cont(t) } else { format!("{}\n.\n{}", gen_cont(t), gen_cont(t)) })),
         "OS_MULTI" => Val::Str(if t.chance(1, 4) { None } else { Some(format!("{}\n{}\n.\n{}", gen_line(t), gen_cont(t), gen_cont(t))) }),
         "PRIO" => Val::Str(Some(t.pick(&["required", "important", "standard", "optional", "extra"]).to_string())),
         "PRIO_O" => Val::Str(if t.chance(1, 4) { None } else { Some(t.pick(&["required", "important", "standard", "optional", "extra"]).to_string()) }),
@@ -660,7 +662,8 @@ fn gen_val(t: &mut Tape, kind: &str) -> Val {
 }
 
 fn gen_prior(t: &mut Tape, kind: &str) -> Prior {
-    let present = t.chance(3, 5);
+    // a long description needs a short one to hang on: for that row the field is always present
+    let present = t.chance(3, 5) || kind == "LONGDESC";
     Prior {
         stale: if present { Some(stale_for(kind)) } else { None },
         comment_before_target: t.chance(1, 3),
@@ -707,7 +710,7 @@ impl PropImpl for C15 {
         let mut t = Tape::new(&bytes);
         let val = gen_val(&mut t, kind);
         let prior = Prior {
-            stale: if s & 1 == 1 { Some(stale_for(kind)) } else { None },
+            stale: if s & 1 == 1 || kind == "LONGDESC" { Some(stale_for(kind)) } else { None },
             comment_before_target: s & 2 == 2,
             comment_after_target: s & 2 == 2,
             fields_before: if s & 4 == 4 { 2 } else { 0 },
